@@ -128,3 +128,34 @@ prop("C15", "exploration", HIST_RULE + "; C15 monitor M-keypath: per wallet a ma
      {"quick": 3000, "thorough": 40000},
      ["output records are observed after every step (a record created and deleted inside one wallet call is not seen)"],
      required_hist=["op:receive", "op:lock", "op:mine", "op:restart", "restore:next-path-beyond-chain"])
+
+prop("C06", "fault_enumeration",
+     "scenarios send (init, lock, receive, finalize, cancel), invoice (issue, process, lock, foreign finalize), late-locked send (init, receive, "
+     "finalize with locking), self-send, bookkeeping (create account, build coinbase, refresh, scan with/without delete_unconfirmed); every "
+     "operation runs in a child process from a directory snapshot under an LD_PRELOAD interposer that numbers the persistence calls (write, "
+     "pwrite, writev, fsync, fdatasync, ftruncate, rename, unlink, creating open) below the world directory; pass 1 records the call sequence, "
+     "pass 2 runs once per (call index) x {kill-before, fail:EIO, fail:ENOSPC} + kill-after the last + short writes of stored-tx files; the "
+     "parent reopens chain and wallets and runs the recovery oracle (loads, queries answer, Locked <-> live entry, reservation all-or-nothing, "
+     "next key index beyond used paths, cancel restores the pre-transaction spendable balance, interrupted refresh/scan completes to the "
+     "reference state); plus every truncation length of a stored-tx file and of wallet.seed. distinct = (scenario, step, call index, mode); "
+     "non-trivial = all; exhaustive refers to the enumerated call indices of the listed scenarios",
+     [{"name": "c06", "cmd": "c06", "shards": {"quick": 16, "thorough": 16}, "timeout": {"quick": 900, "thorough": 3000}}],
+     {"quick": 800, "thorough": 1500},
+     ["crash model is process death (SIGKILL) and failing calls; power loss with un-synced page cache is out of scope",
+      "a kill inside LMDB's own commit may leave either the old or the new state; the oracle never asks which"],
+     required_hist=["mode:kill-before", "mode:fail", "mode:short", "fail-mode:err", "truncation:grintx-reported-as-error", "truncation:seed-reported-as-error"])
+
+prop("C12", "exploration", HIST_RULE + "; C12 monitors: M-nonce records the public nonce and public excess of every participant entry a wallet emits (S1/I1/S2/I2 slates) and "
+     "flags reuse across slate ids or within a slate; M-secrets searches every file below each wallet directory (LMDB file raw, free pages included, stored "
+     "transactions, seed file) and every emitted message for the seed, 4-word runs of the phrase and the true context secrets (obtained through "
+     "get_private_context) as raw bytes, hex (both cases), base64 and JSON integer arrays. Job c12s: seeds of 16/20/24/28/32 bytes x passwords (empty, "
+     "ASCII, unicode, padded, 1 kB): right password, 6-8 wrong passwords, an independent PBKDF2-HMAC-SHA512 + ChaCha20-Poly1305 decryptor (RustCrypto); "
+     "change_password and recover_from_mnemonic in a child under the persistence interposer, interrupted at every call index x {kill-before, "
+     "kill-after, fail EIO/ENOSPC, short writes}: some wallet.seed* file must still decrypt to the original seed under the old or new password",
+     [{"name": "c12h", "cmd": "c12h", "shards": {"quick": 10, "thorough": 12}, "args": {"thorough": {"histories": 10}}, "crash_is_violation": True},
+      {"name": "c12s", "cmd": "c12s", "shards": {"quick": 4, "thorough": 4}}],
+     {"quick": 2500, "thorough": 30000},
+     ["secrets are searched in the listed encodings only; a leak in another encoding would be missed",
+      "the recipient's never-persisted context cannot be compared; XOR-masked stored values are not plaintext",
+      "interruptions are process death / failing calls, not power loss"],
+     required_hist=["nonces-recorded", "secrets:contexts-searched", "secrets:haystacks-searched", "wrong-password-refused", "independent-decrypt-agrees", "interrupted:change_password:recoverable", "interrupted:recover:recoverable"])
